@@ -44,7 +44,7 @@ shape_st = st.fixed_dictionaries({
     'settings': st.sampled_from(['plain', 'plain', 'with_rules', 'with_rules_views', 'no_trailing_newline', 'absent', 'starter', 'starter_merchants_hint', 'stale_rules_entry', 'with_retired_keys']),
     'rules': st.sampled_from(['absent', 'present', 'present', 'present', 'no_rules_yet', 'half_written']),
     'csv': st.sampled_from(['absent', 'rules', 'rules', 'empty']),
-    'bak': st.booleans(), 'baks': st.sampled_from([[], [], ['.bak2'], ['.bak3'], ['.bak2', '.bak3'], ['.bak.old'], ['.backup']]), 'views': st.booleans(), 'notes': st.booleans(), 'gitignore': st.sampled_from([None, None, 'node_modules/\n*.pyc\n', '# mine\ndata/\n', 'output/\ndata/\n', '']), 'old_report': st.booleans(), 'data': st.booleans(),
+    'bak': st.sampled_from([False, False, True, True, 'twin']), 'baks': st.sampled_from([[], [], ['.bak2'], ['.bak3'], ['.bak2', '.bak3'], ['.bak.old'], ['.backup']]), 'views': st.booleans(), 'notes': st.booleans(), 'gitignore': st.sampled_from([None, None, 'node_modules/\n*.pyc\n', '# mine\ndata/\n', 'output/\ndata/\n', '']), 'old_report': st.booleans(), 'data': st.booleans(),
     'crlf': st.sampled_from([False, False, True]),
     # the state an interrupted folder-layout migration leaves: ./config still in place, data/ and output/ already under ./tally
     'half_migrated': st.sampled_from([False, False, False, False, True]),
@@ -111,6 +111,12 @@ class Folder:
             w('config/merchant_categories.csv', CSV_RULES if shape['csv'] == 'rules' else CSV_EMPTY)
         if shape['bak']:
             w('config/merchant_categories.csv.bak', 'Pattern,Merchant,Category,Subcategory\nOLD BACKUP,Old,Misc,Old\n')
+        if shape.get('bak') == 'twin' and shape['csv'] != 'absent':
+            # an earlier backup of the SAME LENGTH and timestamp as the current CSV (one category renamed since; the folder was unpacked from an archive): other content
+            cur = CSV_RULES if shape['csv'] == 'rules' else CSV_EMPTY
+            w('config/merchant_categories.csv.bak', cur.replace('Streaming', 'Strexming').replace('no rules yet', 'no rules yex'))
+            for n_ in ('merchant_categories.csv', 'merchant_categories.csv.bak'):
+                os.utime(os.path.join(self.base, 'config', n_), (1700000000, 1700000000))
         # earlier backups need not be numbered contiguously (the user may have deleted or renamed some)
         for suf in shape.get('baks') or []:
             w('config/merchant_categories.csv' + suf, f'Pattern,Merchant,Category,Subcategory\nOLDER BACKUP {suf},Old,Misc,Old\n')
